@@ -164,10 +164,10 @@ def expNested (paths : Str → Path) (tbl : List Trig) (x : Path × Q) : List Tr
   if shown x.2 then
     ((triggered tbl x.2.name false).map fun e =>
       ({ ctl := x.1, set := { tag := "setvalue".toList, ref := paths e.target, event := evChanged,
-                              value := if e.value.isEmpty then none else some (sub x.1 e.value) } } : TrigFact)) ++
+                              value := if e.value.isEmpty then none else some (sub (paths e.target) e.value) } } : TrigFact)) ++
     ((triggered tbl x.2.name true).map fun e =>
       ({ ctl := x.1, set := { tag := "odk:setgeopoint".toList, ref := paths e.target, event := evChanged,
-                              value := if e.value.isEmpty then none else some (sub x.1 e.value) } } : TrigFact))
+                              value := if e.value.isEmpty then none else some (sub (paths e.target) e.value) } } : TrigFact))
   else []
 
 theorem bodyTrigsL_append (a b : List Body) : bodyTrigsL (a ++ b) = bodyTrigsL a ++ bodyTrigsL b := by
@@ -515,7 +515,7 @@ theorem qwn_inRepeat : ∀ (els : List El) (pre : Path) (y : Path × Option Path
     · right; exact qwn_inRepeat rest pre y h hs
 
 /-- facts keyed by unique paths: filtering a flatMap by one key leaves that key's facts -/
-theorem filter_flatMap_unique {α β} (key : α → Path) (r : β → Path) (g : α → List β)
+theorem filter_flatMap_unique {α β γ} [DecidableEq γ] (key : α → γ) (r : β → γ) (g : α → List β)
     (hg : ∀ z f, f ∈ g z → r f = key z) :
     ∀ (l : List α), (l.map key).Nodup → ∀ y ∈ l,
       (l.flatMap g).filter (fun f => decide (r f = key y)) = g y
@@ -542,7 +542,7 @@ theorem filter_flatMap_unique {α β} (key : α → Path) (r : β → Path) (g :
       rw [h1, List.nil_append]
       exact filter_flatMap_unique key r g hg rest hnd.2 y h
 
-theorem nodup_key_unique {α} (key : α → Path) : ∀ (l : List α), (l.map key).Nodup →
+theorem nodup_key_unique {α γ} (key : α → γ) : ∀ (l : List α), (l.map key).Nodup →
     ∀ a ∈ l, ∀ b ∈ l, key a = key b → a = b
   | [], _, a, ha, _, _, _ => by simp at ha
   | z :: rest, hnd, a, ha, b, hb, hk => by
@@ -554,5 +554,278 @@ theorem nodup_key_unique {α} (key : α → Path) : ∀ (l : List α), (l.map ke
     · rcases List.mem_cons.1 hb with hb' | hb'
       · subst hb'; exact absurd (hk ▸ List.mem_map_of_mem ha') hnd.1
       · exact nodup_key_unique key rest hnd.2 a ha' b hb' hk
+
+
+/-! ## name → path lookup, trigger table per target -/
+
+theorem lookup_mem {β} (k : Str) : ∀ (l : List (Str × β)) (v : β), lookup k l = some v → (k, v) ∈ l
+  | [], _, h => by simp [lookup] at h
+  | (k', v') :: rest, v, h => by
+    simp only [lookup] at h
+    split at h
+    · rename_i hk; simp only [Option.some.injEq] at h; subst hk; subst h; simp
+    · exact List.mem_cons_of_mem _ (lookup_mem k rest v h)
+
+theorem lookup_isSome_of_mem {β} (k : Str) : ∀ (l : List (Str × β)) (v : β), (k, v) ∈ l → ∃ v', lookup k l = some v'
+  | [], _, h => by simp at h
+  | (k', v') :: rest, v, h => by
+    simp only [lookup]
+    split
+    · exact ⟨v', rfl⟩
+    · rename_i hk
+      rcases List.mem_cons.1 h with h | h
+      · simp only [Prod.mk.injEq] at h; exact absurd h.1 hk
+      · exact lookup_isSome_of_mem k rest v h
+
+/-- every entry of the name → path table ends in its name -/
+theorem qPaths_last : ∀ (els : List El) (pre : Path) (x : Str × Path), x ∈ qPaths pre els → x.2.getLast? = some x.1
+  | [], _, x => by simp [qPaths]
+  | .q d :: rest, pre, x => by
+    intro h
+    simp only [qPaths, List.mem_cons] at h
+    rcases h with h | h
+    · subst h; simp
+    · exact qPaths_last rest pre x h
+  | .grp n ks :: rest, pre, x => by
+    intro h
+    simp only [qPaths, List.mem_cons, List.mem_append] at h
+    rcases h with h | h | h
+    · subst h; simp
+    · exact qPaths_last ks (pre ++ [n]) x h
+    · exact qPaths_last rest pre x h
+  | .rep n ks :: rest, pre, x => by
+    intro h
+    simp only [qPaths, List.mem_cons, List.mem_append] at h
+    rcases h with h | h | h
+    · subst h; simp
+    · exact qPaths_last ks (pre ++ [n]) x h
+    · exact qPaths_last rest pre x h
+
+theorem qwp_in_qPaths : ∀ (els : List El) (pre : Path) (x : Path × Q), x ∈ qwp pre els → (x.2.name, x.1) ∈ qPaths pre els
+  | [], _, x => by simp [qwp]
+  | .q d :: rest, pre, x => by
+    intro h
+    simp only [qwp, List.mem_cons] at h
+    simp only [qPaths, List.mem_cons]
+    rcases h with h | h
+    · subst h; left; rfl
+    · right; exact qwp_in_qPaths rest pre x h
+  | .grp n ks :: rest, pre, x => by
+    intro h
+    simp only [qwp, List.mem_append] at h
+    simp only [qPaths, List.mem_cons, List.mem_append]
+    rcases h with h | h
+    · right; left; exact qwp_in_qPaths ks (pre ++ [n]) x h
+    · right; right; exact qwp_in_qPaths rest pre x h
+  | .rep n ks :: rest, pre, x => by
+    intro h
+    simp only [qwp, List.mem_append] at h
+    simp only [qPaths, List.mem_cons, List.mem_append]
+    rcases h with h | h
+    · right; left; exact qwp_in_qPaths ks (pre ++ [n]) x h
+    · right; right; exact qwp_in_qPaths rest pre x h
+
+/-- the lookup separates the names of questions: equal paths, equal names -/
+theorem pathOf_inj (els : List El) (pre : Path) (x y : Path × Q)
+    (hx : x ∈ qwp pre els) (hy : y ∈ qwp pre els)
+    (h : pathOf (qPaths pre els) x.2.name = pathOf (qPaths pre els) y.2.name) : x.2.name = y.2.name := by
+  obtain ⟨v1, h1⟩ := lookup_isSome_of_mem _ _ _ (qwp_in_qPaths els pre x hx)
+  obtain ⟨v2, h2⟩ := lookup_isSome_of_mem _ _ _ (qwp_in_qPaths els pre y hy)
+  have l1 := qPaths_last els pre _ (lookup_mem _ _ _ h1)
+  have l2 := qPaths_last els pre _ (lookup_mem _ _ _ h2)
+  simp only [pathOf, h1, h2, Option.getD_some] at h
+  subst h
+  simp only at l1 l2
+  rw [l1] at l2
+  exact Option.some.inj l2
+
+theorem saveTrigger_target (d : Q) (e : Trig) (h : e ∈ saveTrigger d) : e.target = d.name := by
+  unfold saveTrigger at h
+  split at h
+  · simp at h
+  · simp only [List.mem_singleton] at h; subst h; rfl
+
+/-- with unique question names the table has exactly the one entry of `q` for target `q` -/
+theorem tbl_filter_target (els : List El) (pre : Path) (y : Path × Q) (hy : y ∈ qwp pre els)
+    (hn : ((qwp pre els).map fun x => x.2.name).Nodup) :
+    (trigTable els).filter (fun e => decide (e.target = y.2.name)) = saveTrigger y.2 := by
+  rw [trigTable_eq els pre]
+  exact filter_flatMap_unique (fun x : Path × Q => x.2.name) (·.target) (fun x => saveTrigger x.2)
+    (fun z f hf => saveTrigger_target z.2 f hf) _ hn y hy
+
+theorem tbl_target_is_question (els : List El) (pre : Path) (e : Trig) (h : e ∈ trigTable els) :
+    ∃ x ∈ qwp pre els, e.target = x.2.name := by
+  rw [trigTable_eq els pre] at h
+  obtain ⟨x, hx, hf⟩ := List.mem_flatMap.1 h
+  exact ⟨x, hx, saveTrigger_target x.2 e hf⟩
+
+theorem refOf_inj {a b : Str} (h : refOf a = refOf b) : a = b := by
+  simpa [refOf] using h
+
+/-- only one member of a list with unique keys contributes -/
+theorem flatMap_single {α β γ} (key : α → γ) (g : α → List β) : ∀ (l : List α), (l.map key).Nodup →
+    ∀ y ∈ l, (∀ x ∈ l, key x ≠ key y → g x = []) → l.flatMap g = g y
+  | [], _, y, hy, _ => by simp at hy
+  | z :: rest, hnd, y, hy, hz => by
+    simp only [List.map_cons, List.nodup_cons] at hnd
+    simp only [List.flatMap_cons]
+    rcases List.mem_cons.1 hy with h | h
+    · subst h
+      have : rest.flatMap g = [] := by
+        apply List.flatMap_eq_nil_iff.2
+        intro x hx
+        exact hz x (List.mem_cons_of_mem _ hx) (fun e => hnd.1 (e ▸ List.mem_map_of_mem hx))
+      rw [this, List.append_nil]
+    · have hne : key z ≠ key y := fun e => hnd.1 (e ▸ List.mem_map_of_mem h)
+      rw [hz z (by simp) hne, List.nil_append]
+      exact flatMap_single key g rest hnd.2 y h (fun x hx => hz x (List.mem_cons_of_mem _ hx))
+
+
+/-! ## nested set-nodes per target -/
+
+/-- the table entry of a question with a trigger cell -/
+def entryOf (q : Q) : Trig :=
+  { key := strip q.trigger, target := q.name, value := q.calcu, geo := q.type == "background-geopoint".toList }
+
+theorem saveTrigger_of_trigger (q : Q) (h : q.trigger.isEmpty = false) : saveTrigger q = [entryOf q] := by
+  simp [saveTrigger, h, entryOf]
+
+/-- one half (setvalue or setgeopoint table) of the nodes nested in the control named `n`, restricted to
+    the nodes that target `q` -/
+theorem nested_half_filter (els : List El) (pre : Path) (y : Path × Q) (hy : y ∈ qwp pre els)
+    (hn : ((qwp pre els).map fun x => x.2.name).Nodup) (htrig : y.2.trigger.isEmpty = false)
+    (n : Str) (g : Bool) (mk : Trig → TrigFact)
+    (hmk : ∀ e, (mk e).set.ref = pathOf (qPaths pre els) e.target) :
+    ((triggered (trigTable els) n g).map mk).filter
+        (fun f => decide (f.set.ref = pathOf (qPaths pre els) y.2.name)) =
+      if (entryOf y.2).key == refOf n && (entryOf y.2).geo == g then [mk (entryOf y.2)] else [] := by
+  have hcongr : ∀ e ∈ trigTable els,
+      (decide ((mk e).set.ref = pathOf (qPaths pre els) y.2.name) && (e.key == refOf n && e.geo == g)) =
+      ((e.key == refOf n && e.geo == g) && decide (e.target = y.2.name)) := by
+    intro e he
+    obtain ⟨x, hx, hxe⟩ := tbl_target_is_question els pre e he
+    have : decide ((mk e).set.ref = pathOf (qPaths pre els) y.2.name) = decide (e.target = y.2.name) := by
+      rw [hmk e]
+      by_cases h : e.target = y.2.name
+      · simp [h]
+      · have : pathOf (qPaths pre els) e.target ≠ pathOf (qPaths pre els) y.2.name := by
+          intro hp
+          rw [hxe] at hp h
+          exact h (pathOf_inj els pre x y hx hy hp)
+        simp [h, this]
+    rw [this, Bool.and_comm]
+  rw [List.filter_map]
+  unfold triggered
+  rw [List.filter_filter]
+  have h1 : (trigTable els).filter
+      (fun e => ((fun f => decide (f.set.ref = pathOf (qPaths pre els) y.2.name)) ∘ mk) e && (e.key == refOf n && e.geo == g)) =
+      (trigTable els).filter (fun e => (e.key == refOf n && e.geo == g) && decide (e.target = y.2.name)) :=
+    List.filter_congr hcongr
+  rw [h1, ← List.filter_filter, tbl_filter_target els pre y hy hn, saveTrigger_of_trigger y.2 htrig]
+  by_cases hk : ((entryOf y.2).key == refOf n && (entryOf y.2).geo == g) = true
+  · simp [List.filter, hk]
+  · simp [List.filter, hk]
+
+
+/-- question names are a sublist of all element names (in the name → path table's order) -/
+theorem qwp_names_sublist : ∀ (els : List El) (pre : Path),
+    ((qwp pre els).map fun x => x.2.name).Sublist ((qPaths pre els).map (·.1))
+  | [], _ => by simp [qwp, qPaths]
+  | .q d :: rest, pre => by
+    simp only [qwp, qPaths, List.map_cons]
+    exact (qwp_names_sublist rest pre).cons_cons _
+  | .grp n ks :: rest, pre => by
+    simp only [qwp, qPaths, List.map_cons, List.map_append]
+    exact ((qwp_names_sublist ks (pre ++ [n])).append (qwp_names_sublist rest pre)).cons _
+  | .rep n ks :: rest, pre => by
+    simp only [qwp, qPaths, List.map_cons, List.map_append]
+    exact ((qwp_names_sublist ks (pre ++ [n])).append (qwp_names_sublist rest pre)).cons _
+
+/-- with unique element names the lookup returns the question's own path -/
+theorem pathOf_question (els : List El) (pre : Path) (y : Path × Q) (hy : y ∈ qwp pre els)
+    (hn : ((qPaths pre els).map (·.1)).Nodup) : pathOf (qPaths pre els) y.2.name = y.1 := by
+  have hm := qwp_in_qPaths els pre y hy
+  obtain ⟨v, hv⟩ := lookup_isSome_of_mem _ _ _ hm
+  have := nodup_key_unique (·.1) _ hn _ (lookup_mem _ _ _ hv) _ hm rfl
+  simp only [Prod.mk.injEq, true_and] at this
+  simp [pathOf, hv, this]
+
+
+/-! ## acceptance: a converted form's triggers are references to visible questions -/
+
+theorem firstErr_none {α} (f : α → Option Err) : ∀ (l : List α), firstErr f l = none → ∀ a ∈ l, f a = none
+  | [], _, a, ha => by simp at ha
+  | x :: rest, h, a, ha => by
+    simp only [firstErr] at h
+    split at h
+    · cases h
+    · rename_i hx
+      rcases List.mem_cons.1 ha with rfl | ha
+      · exact hx
+      · exact firstErr_none f rest h a ha
+
+theorem questions_eq : ∀ (els : List El) (pre : Path), questions els = (qwp pre els).map (·.2)
+  | [], _ => by simp [questions, qwp]
+  | .q d :: rest, pre => by simp [questions, qwp, questions_eq rest pre]
+  | .grp n ks :: rest, pre => by simp [questions, qwp, questions_eq ks (pre ++ [n]), questions_eq rest pre]
+  | .rep n ks :: rest, pre => by simp [questions, qwp, questions_eq ks (pre ++ [n]), questions_eq rest pre]
+
+theorem check_none_parts (els : List El) (h : check dyn els = none) :
+    firstErr (usableErr (questions els) (trigTable els)) (trigTable els) = none ∧
+    firstErr (ctlErr (trigTable els)) (questions els) = none := by
+  unfold check at h
+  dsimp only at h
+  split at h
+  · cases h
+  split at h
+  · cases h
+  split at h
+  · cases h
+  split at h
+  · cases h
+  split at h
+  · cases h
+  split at h
+  · cases h
+  split at h
+  · cases h
+  exact ⟨by assumption, h⟩
+
+/-- an accepted form's trigger cells are exactly one reference to a question that renders a control
+    (the F8 repair, `Survey._is_usable_trigger` + the "not user-visible" error of `Question.xml_control`) -/
+theorem accepted_trigger_visible_aux (els : List El) (pre : Path) (h : check dyn els = none)
+    (y : Path × Q) (hy : y ∈ qwp pre els) (htrig : y.2.trigger.isEmpty = false) :
+    ∃ x ∈ qwp pre els, strip y.2.trigger = refOf x.2.name ∧ shown x.2 = true := by
+  obtain ⟨hu, hc⟩ := check_none_parts dyn els h
+  have hmem : entryOf y.2 ∈ trigTable els := by
+    rw [trigTable_eq els pre]
+    exact List.mem_flatMap.2 ⟨y, hy, by simp [saveTrigger_of_trigger y.2 htrig]⟩
+  have hue := firstErr_none _ _ hu _ hmem
+  unfold usableErr at hue
+  split at hue
+  · cases hue
+  · rename_i t hfind
+    have htq : t ∈ questions els := List.mem_of_find?_eq_some hfind
+    have hkey : (refOf t.name == (entryOf y.2).key) = true := by
+      have := List.find?_some hfind
+      simpa using this
+    have hct := firstErr_none _ _ hc t htq
+    rw [questions_eq els pre] at htq
+    obtain ⟨x, hx, rfl⟩ := List.mem_map.1 htq
+    refine ⟨x, hx, ?_, ?_⟩
+    · have : refOf x.2.name = (entryOf y.2).key := by simpa using hkey
+      exact this.symm
+    · unfold ctlErr at hct
+      by_cases hh : hiddenQ x.2 = true
+      · simp only [hh, if_true] at hue hct
+        split at hct
+        · cases hct
+        · rename_i hnil
+          simp [hnil] at hue
+      · have hh' : hiddenQ x.2 = false := by simpa using hh
+        simp only [hh', Bool.false_eq_true, if_false] at hue
+        split at hue
+        · rename_i hctl; simp [shown, hh', hctl]
+        · cases hue
 
 end Pyxv.Defaults
